@@ -31,6 +31,7 @@ pub fn cfg_for(own_id: &str, tier: Tier) -> GenCfg {
   c.effects_in_rec_call_args = !excluded(id, "effects_in_rec_call_args");
   c.derived_induction_args = !excluded(id, "derived_induction_args");
   c.possibly_zero_divisor = !excluded(id, "possibly_zero_divisor");
+  c.same_operand_division = !crate::engine::findings::excluded(own_id, "same_operand_division");
   // backend-difference findings only restrict the differential check that owns them
   c.neg_division = !crate::engine::findings::excluded(own_id, "neg_division");
   c.single_field_struct_payload = !crate::engine::findings::excluded(own_id, "single_field_struct_payload");
